@@ -121,6 +121,56 @@ def run_uncapped(p):
         tplgen.Recorder.__init__.__defaults__ = (None, old)
 
 
+def to_tree_fragment(prog):
+    """project a generated program onto the fragment of the tree theorems (Djc/Proofs/Tree.lean, Stitch.lean): component
+    tags with empty bodies, no dynamic component, slots replaced by their default content, providers by their bodies"""
+    def flat(nodes):
+        out = []
+        for nd in nodes:
+            nd = dict(nd)
+            for k in ("a", "b", "body"):
+                if k in nd:
+                    nd[k] = flat(nd[k])
+            if nd["t"] == "comp":
+                out.append(dict(nd, body=[], dyn=False))
+            elif nd["t"] in ("slot", "provide"):
+                out += nd["body"]
+            elif nd["t"] == "fill":
+                continue
+            else:
+                out.append(nd)
+        return out
+    lib = [dict(d, template=flat(d["template"]), data=[x for x in d["data"] if "inject" not in x[1] and "side" not in x[1]]) for d in prog["lib"]]
+    return dict(prog, lib=lib, entry={"page": flat(prog["entry"]["page"])})
+
+
+def run_trees(chk, n):
+    """programs inside the fragment of the tree theorems, deeper and wider than the general generator draws them (up to 7
+    components calling each other through their templates, loops around tags): real = model = reading on the output,
+    registries empty afterwards, and the model-free reading of the page (distinct ids, no placeholder, an element carries
+    id X iff it is a root of instance X's segment)"""
+    prof = dict(PROFILE, ncomp=(4, 7), depth=3, w_comp=9, w_for=2.5, w_elem=5, w_slot=1, w_provide=0, w_inject=0, p_side=0.0,
+                p_is_filled=0.0, p_only=0.15)
+    progs = []
+    for i in range(n):
+        g = tplgen.Gen(core.rng(PROP, "trees", i), prof)
+        progs.append(to_tree_fragment(g.program()))
+    reps = rc.batch(progs)
+    for p, (rep, sp) in zip(progs, reps):
+        real = tplgen.run_real(p, limit=20.0)
+        chk.count("trees", 1, validated=1)
+        chk.errkind(real["err"] or "ok")
+        chk.nontrivial(("trees", real["out"] or real["err"]))
+        n_inst = len(real["events"]) if real.get("events") else 0
+        chk.branch(["trees:instances>=%d" % (8 if n_inst >= 24 else 4 if n_inst >= 12 else 1)])
+        rc.classify(chk, "trees", p, real, rep, sp, REGIONS)
+        if real["err"] is None:
+            direct(chk, p, real)
+            if real["residue"] != {k: 0 for k in tplgen.CENSUS}:
+                pl = rc.replay_payload(p, real, rep, sp, why="registries not empty after a returned render of a fill-free tree")
+                chk.violation("impl-violates-spec", "trees", pl["program"], impl=pl["real"], note=" || ".join(pl["source"]))
+
+
 THREAD_GATED = ("django_components/component.py",)
 
 
@@ -172,6 +222,7 @@ def run(tier: str) -> int:
     core.django_setup()
     n = 600 if tier == "quick" else 12000
     run_programs(chk, n)
+    run_trees(chk, n // 4)
     run_depth(chk, [3, 50, 500] if tier == "quick" else [3, 50, 500, 2000])
     run_depth(chk, [3, 1100] if tier == "quick" else [3, 50, 1100, 2000], looped=True)
     run_threads(chk, 12 if tier == "quick" else 120, 6 if tier == "quick" else 12)
